@@ -7,7 +7,10 @@ if [ -n "$(git status --porcelain -- src locustdb-serialization locustdb-compres
 git apply --check $patch || { echo "patch does not apply to current /repo"; exit 3; }
 git apply $patch
 for prop in "$@"; do
+  cp /verif/evidence/$prop.json /tmp/evidence_$prop.keep 2>/dev/null   # evidence/ must only ever describe runs on the unchanged tree
   (cd /verif && LVERIF_KEEP= ./check $prop --tier quick > /verif/seeded/$id/detect_$prop.log 2>&1; echo "exit=$?" >> /verif/seeded/$id/detect_$prop.log)
+  cp /verif/evidence/$prop.json /verif/seeded/$id/evidence_$prop.json 2>/dev/null
+  mv /tmp/evidence_$prop.keep /verif/evidence/$prop.json 2>/dev/null
   echo "$id $prop: $(grep -c '^VIOLATION' /verif/seeded/$id/detect_$prop.log) violations, $(tail -1 /verif/seeded/$id/detect_$prop.log)"
 done
 git -C /repo checkout -- .
